@@ -270,3 +270,16 @@ NOTES = {
     "C02": "bookkeeping algebra of one actor: PartialVersion completeness; gap computation; contains predicates",
     "C08": "per-call tiling contract of the real ChunkedChanges::next + verified driver for the whole-run statement; chunk_range: see kani unit",
 }
+
+# ---- composition guard: one structural unit per property that has fragment-based Verus units (see vx/structural.py check_exits_covered)
+import os as _os, re as _re
+for _p, _us in list(UNITS.items()):
+    _ts = []
+    for _u in _us:
+        if _u.get("kind") == "verus":
+            _t = _os.path.join(_os.path.dirname(_os.path.abspath(__file__)), _u["template"])
+            if _re.search(r"^//@extract fragment", open(_t).read(), _re.M) and _u["template"] not in _ts:
+                _ts.append(_u["template"])
+    if _ts:
+        _us.append(dict(kind="structural", name=_p.lower() + "_exits", check="exits_covered", templates=_ts, file="(functions with fragments under contract)",
+                        trusted=["baseline of early exits outside the extracted spans: /verif/exits/%s_exits.json (committed, never written by a check)" % _p.lower()]))
